@@ -24,6 +24,13 @@ def run(repo, run, tier):
     attributes_and_kinds(repo, run)
     sentinel(repo, run, m)
     no_duplicates(repo, run, m)
+    # the direction of a crossing on the END of a step is classified from samples just beyond it, where only the current step's piece exists: the piece must
+    # be the cubic there too (a piece held constant outside its step makes 'rising' and 'falling' both true for a root exactly on the step end)
+    from ..report import Rejudged
+    from .c17 import hermite
+    rj = Rejudged(run, {"C17.1": "C07.14"}, note="re-judged for C07: the classification samples extrapolate the step's piece")
+    hermite(repo, rj)
+    rj.finish_rejudge()
     # 'within tolerance level of a true root', 'lies inside the step in which it was found': a reported root is one the search CERTIFIED by a sign change
     # (or an exact zero); a success decided by comparing |g| with the abscissa tolerance reports end points of steps that contain no crossing
     from .c08 import dim_rule
